@@ -115,6 +115,13 @@ func genNames(g *G, quick int) {
 		}
 		emitName(g, strings.Repeat("a.", n-2)+"bc.d")
 	}
+	// all-digit final labels of every size, also beyond 64-bit values
+	for _, tld := range []string{"18446744073709551615", "18446744073709551616", "99999999999999999999", strings.Repeat("9", 25), strings.Repeat("0", 22) + "1", strings.Repeat("1", 63), "0", "00"} {
+		emitName(g, "a."+tld)
+		emitName(g, "_s.a."+tld)
+		emitName(g, tld)
+		emitName(g, "a."+tld+"x")
+	}
 	// an ACE label in every position of a short name
 	for _, ace := range []string{"xn--0", "xn--a-b", "xn--abc-", "xn--e1afmkfd", "XN--E1AFMKFD", "xn--", "xn---"} {
 		for _, shape := range []string{"%s", "%s.com", "www.%s", "www.%s.com", "a.b.%s.c", "_srv.%s.com", "%s.%s"} {
